@@ -165,7 +165,7 @@ def inst_term(inst):
 
 def outcome_term(inst, res):
     if "err" in res:
-        return "None"
+        return "(None : outcome)"
     n = len(inst["positions"])
     als = []
     for c in range(n):
@@ -175,7 +175,7 @@ def outcome_term(inst, res):
             rowc.append(Raw(f"({a0}, {a1}, {q1})"))
         als.append(rowc)
     part = [bool(b) for b in res["part"]]
-    return (f"(Some ({res['cost']}, {term(part)}, {term([Nat(t) for t in res['tv']])}, {term(als)}))")
+    return (f"(Some ({res['cost']}, {term(part)}, {term([Nat(t) for t in res['tv']])}, {term(als)}) : outcome)")
 
 
 def shape_ok(inst, res):
